@@ -126,20 +126,48 @@ def batches(rng, tier):
                 note="at_optional (vector/deque/const/string/heap strings, indices up to 2^64-1), maybe_front/back, pop_back/pop_front (also containers of heap "
                      "strings: a read after the pop is a use-after-free), array::from_range (lvalue/deque/rvalue), runtime_index (u8/u32/u64 index), "
                      "find_opt/find_opt_mapped/find_opt_iterator (map/const/unordered), the five dynamic casts on every (target, dynamic class)")
+    # math::vector wrappers of the translated scalar helpers: all-or-nothing over the components
+    IMIN, IMAX, UMAX = -2 ** 31, 2 ** 31 - 1, 2 ** 32 - 1
+    ivals = [IMIN, IMIN + 1, -7, -2, -1, 0, 1, 2, 7, IMAX]
+    uvals = [0, 1, 2, 3, 7, 2 ** 31, UMAX]
+    ismall, usmall = [IMIN, -7, -1, 0, 2, IMAX], [0, 1, 3, 2 ** 31, UMAX]
+    vops = []
+    ivecs = [[a, b] for a in ivals for b in ivals] + [[a, b, c] for a in ismall for b in ismall for c in ismall]
+    uvecs = [[a, b] for a in uvals for b in uvals] + [[a, b, c] for a in usmall for b in usmall for c in usmall]
+    for v in ivecs:
+        for d in ivals:
+            if d == -1 and IMIN in v:
+                continue        # INT_MIN / -1: the exact quotient is not representable (outside the property's guard)
+            vops += [f"vdiv i32 {csv(v)} {d}", f"vceildiv i32 {csv(v)} {d}"]
+    for v in uvecs:
+        for d in uvals:
+            vops += [f"vdiv u32 {csv(v)} {d}", f"vmod u32 {csv(v)} {d}"]
+    r = rng.fork("vectors")
+    for vecs, vals, ty in ((ivecs, ivals, "i32"), (uvecs, uvals, "u32")):
+        pairs = [(a, b) for a in vecs for b in vecs if len(a) == len(b) and not any(x == IMIN and y == -1 for x, y in zip(a, b))]
+        if not thorough:
+            pairs = [p for p in pairs if len(p[0]) == 2] + [r.choice(pairs) for _ in range(1500)]
+        for a, b in pairs:
+            vops.append(f"vdivv {ty} {csv(a)} {csv(b)}")
+            if ty == "u32":
+                vops.append(f"vmodv {ty} {csv(a)} {csv(b)}")
+    yield Batch("vectors", vops, exhaustive=True,
+                note="math::vector operator/ (scalar, vector), mod (scalar, vector), ceil_div_signed on 2- and 3-dimensional int32/uint32 vectors over the boundary "
+                     "values (INT_MIN, -1, 0, INT_MAX, 2^31, UINT_MAX): nothing iff some divisor is zero, every component from the translated scalar helper")
     n = 6 if thorough else 4
     ops = [f"isflag s:{w}" for w in words("-a=b", n)]
     ops += [f"enumfs s:{w}" for w in words("fobar", 4 if not thorough else 5)] + [f"enumfs s:{w}" for w in ("foo", "bar", "baz", "fo", "foobar", "foobarx", "fooba", "")]
     ops += [f"flagname {k} s:{w}" for k in ("short", "long") for w in words("-a=", 3 if not thorough else 4)]
     yield Batch("strings", ops, exhaustive=True, note="is_flag, enum from_string, flag_name (+ is_flag of its result) on all short strings, views backed by exact-size heap buffers")
-    toks = ["-", "--", "-a", "--opt", "x", "-x", ""]
+    toks = ["-", "--", "-a", "--opt", "x", "-x", "", "--a", "-opt"]
     ctxs = ["_", "opt:l", "a:s,opt:l", "x:s,:s"]
     vecs = [[]]
     frontier = [[]]
-    for _ in range(5 if thorough else 3):
+    for _ in range(4 if thorough else 3):
         frontier = [v + [t] for v in frontier for t in toks]
         vecs += frontier
     ops = [f"nextarg {','.join(v) if v else '_'} {c}" for v in vecs for c in ctxs]
-    yield Batch("next_arg", ops, exhaustive=True, note="all argument vectors over 7 tokens incl. '-', '--' and the empty string, 4 option-name contexts")
+    yield Batch("next_arg", ops, exhaustive=True, note="all argument vectors over 9 tokens incl. '-', '--' and the empty string, 4 option-name contexts")
     # ---- streams in every state
     ops = []
     for ln in range(0, 7):
@@ -179,7 +207,7 @@ def batches(rng, tier):
                 note="read_chars (one and two reads), stream_to_string, io::get/peek/read, write_chars on streams in every state: eof/fail/bad bit preset, "
                      "null streambuf, 1- and 2-character get areas, ifstream on a file and on a directory, streambuf that throws, output with limited room")
     # ---- the file system helpers on every kind of path
-    ops = [f"filesize {k}" for k in ["file4096", "dot", "fifo"] + PATH_KINDS]
+    ops = [f"filesize {k}" for k in ["file4096", "sparse5g", "dot", "fifo"] + PATH_KINDS]
     ops += [f"fopen {m} {k}" for m in ("r", "rx") for k in PATH_KINDS + ["dot"]]
     ops += [f"fopen {m} {k}" for m in ("w", "wx") for k in WRITE_KINDS]
     ops += [f"{op} {k}" for op in ("mkdir", "mkdirs") for k in MKDIR_KINDS]
@@ -236,6 +264,12 @@ def batches(rng, tier):
     for ty in ("int", "uint", "short", "long", "char", "uchar"):
         for k in ("fresh", "eofbit", "failbit", "badbit", "chunk1", "file"):
             ops += [f"ioextract {ty} {k} {hx(w)}" for w in ("", "7", " 7", "7 ", "-7", "+", "a", "99999999999", "32768", "-32769", "12ab", "\xff", "\x00", " ")]
+    ftexts = ["1", "1.5", "-1.5", "abc", "", "1e400", "1e-400", "1e38", "1e39", "1e-46", "nan", "inf", "-inf", "infinity", "0x1p3", "1,5", "1;5", "1.5 ", " 1.5", "1e", "1e+",
+              "+.5", ".", ".5", "5.", "1.5.2", "-0", "1e308", "1e309", "-1e309", "1e-323", "1e-324", "123456789012345678901234567890", "0.1e1", "1E3", "1d3", "1f"]
+    ops += [f"extract {ty} {hx(w)}" for ty in ("float", "double") for w in ftexts]
+    ops += ["uptrstd null", "uptrstd object", "weaklock live", "weaklock expired", "weaklock empty"]
+    fvals = ["0", "-0", "1", "-1", "denorm", "-denorm", "max", "inf", "-inf", "nan"]
+    ops += [f"atan2 {x} {y}" for x in fvals for y in fvals]
     ops += [f"system {k}" for k in ("exit0", "exit3", "exit255", "exit256", "true", "empty", "notfound", "kill", "term", "segv")]
     yield Batch("environment", ops, exhaustive=True,
                 note="getenv (set/empty/unset/malformed names, embedded NUL), args/args_from_second on exact-size argv arrays (argc 0..3/4), error::strerror on every "
